@@ -5,6 +5,7 @@ import (
 	"fmt"
 	"math/big"
 	"os"
+	"sort"
 	"strings"
 	"time"
 
@@ -48,6 +49,7 @@ func (g *Gen) register() {
 	g.add("resolver_combo", g.genResolverCombo)
 	g.add("batch_combo", g.genBatchCombo)
 	g.add("market_combo", g.genMarketCombo)
+	g.add("sell_all_then_buy", g.genSellAllThenBuy)
 }
 
 // ---------- basket ----------
@@ -629,6 +631,75 @@ func (g *Gen) genMarketCombo() *eng.Tx {
 			return &eng.Tx{Msgs: []sdk.Msg{&markettypes.MsgBuyDirect{Buyer: g.otherActor(seller), Orders: []*markettypes.MsgBuyDirect_Order{{SellOrderId: last.Id, Quantity: "0.5", BidPrice: &c, DisableAutoRetire: true}}}}, Tag: "market_combo/buy"}
 		})
 	return &eng.Tx{Msgs: []sdk.Msg{&markettypes.MsgAddAllowedDenom{Authority: g.Gov, BankDenom: d1, DisplayDenom: d1, Exponent: 6}}, Tag: "market_combo/allow"}
+}
+
+// genSellAllThenBuy: an account whose balance row of a batch holds NOTHING but escrow (it has put its
+// whole tradable balance on sale and never retired any of that batch) buys credits of that same batch
+// from someone else. Scripted: another holder lists one credit, the account lists everything it has,
+// then buys half a credit of the other listing (tradable, then auto-retired).
+func (g *Gen) genSellAllThenBuy() *eng.Tx {
+	ks := sortedKeys(g.V.AllowedDenoms)
+	if len(ks) == 0 {
+		return nil
+	}
+	den := ks[g.R.Intn(len(ks))]
+	type cand struct {
+		a, c string
+		key  uint64
+		t    *big.Rat
+	}
+	var cs []cand
+	for k, bal := range g.V.Balances {
+		if !g.isActor(k.Addr) || bal.T == nil || bal.T.Sign() <= 0 || (bal.R != nil && bal.R.Sign() != 0) || (bal.E != nil && bal.E.Sign() != 0) || bal.T.Cmp(new(big.Rat).SetInt(ref.Pow10(20))) > 0 {
+			continue
+		}
+		for k2, b2 := range g.V.Balances {
+			if k2.BatchKey == k.BatchKey && k2.Addr != k.Addr && g.isActor(k2.Addr) && b2.T != nil && b2.T.Cmp(big.NewRat(2, 1)) >= 0 {
+				cs = append(cs, cand{k.Addr, k2.Addr, k.BatchKey, bal.T})
+			}
+		}
+	}
+	if len(cs) == 0 {
+		return nil
+	}
+	sort.Slice(cs, func(i, j int) bool {
+		if cs[i].key != cs[j].key {
+			return cs[i].key < cs[j].key
+		}
+		if cs[i].a != cs[j].a {
+			return cs[i].a < cs[j].a
+		}
+		return cs[i].c < cs[j].c
+	})
+	c := cs[g.R.Intn(len(cs))]
+	b := g.V.Batches[c.key]
+	if b == nil {
+		return nil
+	}
+	price := sdk.NewInt64Coin(den, 10)
+	all := trimDec(ratToDec(c.t, 6))
+	buy := func(retire bool) func() *eng.Tx {
+		return func() *eng.Tx {
+			var last *marketapi.SellOrder
+			for _, o := range g.V.OrderList {
+				if obs.Addr(o.Seller) == c.c && o.BatchKey == c.key && (last == nil || o.Id > last.Id) {
+					last = o
+				}
+			}
+			if last == nil {
+				return nil
+			}
+			mf := sdk.NewInt64Coin(den, 1000)
+			return &eng.Tx{Msgs: []sdk.Msg{&markettypes.MsgBuyDirect{Buyer: c.a, Orders: []*markettypes.MsgBuyDirect_Order{{SellOrderId: last.Id, Quantity: "0.25", BidPrice: &price,
+				DisableAutoRetire: !retire, RetirementJurisdiction: "US", MaxFeeAmount: &mf}}}}, Tag: "sell_all_then_buy/buy"}
+		}
+	}
+	g.script = append(g.script,
+		func() *eng.Tx {
+			return &eng.Tx{Msgs: []sdk.Msg{&markettypes.MsgSell{Seller: c.a, Orders: []*markettypes.MsgSell_Order{{BatchDenom: b.Denom, Quantity: all, AskPrice: &price, DisableAutoRetire: true}}}}, Tag: "sell_all_then_buy/sell-all"}
+		},
+		buy(false), buy(true))
+	return &eng.Tx{Msgs: []sdk.Msg{&markettypes.MsgSell{Seller: c.c, Orders: []*markettypes.MsgSell_Order{{BatchDenom: b.Denom, Quantity: "1", AskPrice: &price, DisableAutoRetire: true}}}}, Tag: "sell_all_then_buy/other-lists"}
 }
 
 func (g *Gen) order() *marketapi.SellOrder {
